@@ -310,6 +310,9 @@ func (nc *nilCtx) mayBeNil0(v ssa.Value) bool {
 		return nc.callResultMayBeNil(v, x, 0)
 	case *ssa.Lookup:
 		if _, isMap := x.X.Type().Underlying().(*types.Map); isMap && isPtrLike(x.Type()) && !x.CommaOk {
+			if keyOfSameMap(nc.cx.Fx, x) {
+				return false // m[k] with k taken from the keys of m itself (for _, k := range slices.Sorted(maps.Keys(m)))
+			}
 			return nc.note(v, "map lookup without presence test")
 		}
 	}
@@ -1913,4 +1916,46 @@ func (cx *Ctx) checkHTTPStatus(r *Report, vf *VFlow, fns []*ssa.Function) {
 	if n < 1 { // (error replies may all go through one helper: the count says nothing about behaviour)
 		r.Fail("R-STATUS", "#status-sites", "", fmt.Sprintf("only %d status-code sites found", n))
 	}
+}
+
+// keyOfSameMap: the key of the lookup m[k] is an element of a slice / iterator obtained from the keys of the same
+// map (slices.Sorted(maps.Keys(m)), slices.Collect(maps.Keys(m)), ranging over maps.Keys(m)), and the function does
+// not delete from the map: the entry is present.
+func keyOfSameMap(fx *Facts, lk *ssa.Lookup) bool {
+	for _, c := range callsIn(lk.Parent()) {
+		if b, ok := c.Common().Value.(*ssa.Builtin); ok && (b.Name() == "delete" || b.Name() == "clear") {
+			return false
+		}
+	}
+	strip := func(n string) string {
+		if i := strings.Index(n, "["); i >= 0 {
+			return n[:i]
+		}
+		return n
+	}
+	// the key: an element of some container
+	var cont ssa.Value
+	switch k := lk.Index.(type) {
+	case *ssa.UnOp:
+		if ia, ok := k.X.(*ssa.IndexAddr); ok {
+			cont = ia.X
+		}
+	case *ssa.Index:
+		cont = k.X
+	}
+	for i := 0; i < 4 && cont != nil; i++ {
+		c, ok := cont.(*ssa.Call)
+		if !ok {
+			return false
+		}
+		switch strip(calleeName(c)) {
+		case "slices.Sorted", "slices.Collect", "slices.Clone", "slices.SortedFunc", "slices.SortedStableFunc":
+			cont = c.Call.Args[0]
+		case "maps.Keys":
+			return fx.path(c.Call.Args[0]) == fx.path(lk.X)
+		default:
+			return false
+		}
+	}
+	return false
 }
